@@ -14,7 +14,8 @@ package main
 // argument lists are drawn from
 //   fresh      records built by the caller (pointers, a slice),
 //   captured   a slice header read from the record's field at an EARLIER point of the history (whole, a sub-slice
-//              `old[i:j]`, pointers to / elements of it `&old[i]`), possibly mixed with fresh records,
+//              `old[i:j]`, pointers to / elements of it `&old[i]`, extended by the caller `append(old, fresh…)` - which
+//              writes into old's spare capacity), possibly mixed with fresh records,
 //   field      the record's current field value itself (`Delete(u.Tags)`, `Replace(u.Tags)`).
 // Judged after every call:
 //   captured   the keys held by every captured slice are what they were when it was captured   (direct aliasing check)
@@ -79,7 +80,7 @@ var c12rModels = []interface{}{&C12ROwner{}, &C12RSub{}, &C12RPSub{}, &C12RTag{}
 
 // one argument of a call
 type c12rArg struct {
-	Src  string `json:"src"`            // fresh-ptr | fresh-slice | cap-whole | cap-sub | cap-elems | field
+	Src  string `json:"src"`            // fresh-ptr | fresh-slice | cap-whole | cap-extended | cap-sub | cap-elems | field
 	Cap  int    `json:"cap,omitempty"`  // which earlier capture (modulo the number of usable captures)
 	Lo   int    `json:"lo,omitempty"`   // cap-sub: bounds (modulo len+1)
 	Hi   int    `json:"hi,omitempty"`
@@ -450,6 +451,7 @@ func c12rRun(s c12rSeq, st *c12rStats) (verdict *c12rVerdict) {
 		var args []interface{}
 		var named []int
 		var srcs []string
+		extended := false
 		for _, a := range op.Args {
 			if op.Op == "clear" {
 				break
@@ -463,6 +465,14 @@ func c12rRun(s c12rSeq, st *c12rStats) (verdict *c12rVerdict) {
 			src := a.Src
 			if strings.HasPrefix(src, "cap-") && len(usable) == 0 {
 				src = "fresh-slice"
+			}
+			if src == "cap-extended" {
+				// two `append(old, …)` of one call may share old's spare capacity: the second would overwrite the first -
+				// the caller's own aliasing, nothing gorm answers for. One extension per call.
+				if extended {
+					src = "cap-whole"
+				}
+				extended = true
 			}
 			switch src {
 			case "fresh-ptr":
@@ -495,6 +505,19 @@ func c12rRun(s c12rSeq, st *c12rStats) (verdict *c12rVerdict) {
 				case "cap-whole":
 					args = append(args, c.val.Interface())
 					named = append(named, c.ids...)
+				case "cap-extended": // mine := append(old, fresh…): written into old's spare capacity when there is some
+					ext := c.val
+					named = append(named, c.ids...)
+					for _, k := range a.Keys {
+						id := pool[k%len(pool)]
+						if rel.Ptr {
+							ext = reflect.Append(ext, fresh(id))
+						} else {
+							ext = reflect.Append(ext, fresh(id).Elem())
+						}
+						named = append(named, id)
+					}
+					args = append(args, ext.Interface())
 				case "cap-sub":
 					lo, hi := a.Lo%(n+1), a.Hi%(n+1)
 					if lo > hi {
@@ -617,8 +640,10 @@ func c12rGenSeq(rng *rand.Rand, maxLen int) c12rSeq {
 					a.Src, a.Keys = "fresh-ptr", keys()
 				case r < 4:
 					a.Src, a.Keys = "fresh-slice", keys()
-				case r < 7:
+				case r < 6:
 					a.Src = "cap-whole"
+				case r < 7:
+					a.Src = "cap-extended"
 				case r < 9:
 					a.Src = "cap-sub"
 				case r < 11:
